@@ -22,8 +22,9 @@ var (
 func u64(v uint64) *uint64 { return &v }
 
 type genCtx struct {
-	r      *h.Run
-	serial int
+	r         *h.Run
+	serial    int
+	tightFile bool // choose the per-file limit just above the archive's own size (below the entry that hides behind a wrapped size)
 }
 
 func (g *genCtx) dirPath() string {
@@ -184,6 +185,11 @@ func (g *genCtx) addLie(a *archiveSpec) string {
 	case x < 8: // sizes that wrap negative as int64
 		ds := []uint64{1 << 63, math.MaxUint64, 1<<63 + actual}
 		e.Declared = u64(ds[rng.Intn(len(ds))])
+		if e.Nested == nil && !e.FakeZip && rng.Intn(3) > 0 {
+			// a bomb behind the wrapped size: much more data than the per-file limit will allow, in an archive that is smaller than it
+			e.Len, e.Random, e.Method = 3000+rng.Intn(40000), false, 8
+			g.tightFile = true
+		}
 		return "declared-2^63"
 	case x < 10:
 		e.BadCRC = true
@@ -241,6 +247,9 @@ func (g *genCtx) limits(a *archiveSpec) limitsSpec {
 				l.MaxFile = fp.MaxFile + jitter()
 			}
 		}
+	}
+	if g.tightFile {
+		l.MaxFile = fp.ArchSizes[0] + int64(rng.Intn(60))
 	}
 	// total size
 	l.MaxTotal = hugeTotal[rng.Intn(2)]
@@ -361,7 +370,9 @@ func bomb(levels, fan, payload int) archiveSpec {
 
 func corpus() []scenario {
 	var cs []scenario
-	add := func(note string, a archiveSpec, l limitsSpec) { cs = append(cs, scenario{Archive: a, Limits: l, Note: note}) }
+	add := func(note string, a archiveSpec, l limitsSpec) {
+		cs = append(cs, scenario{Archive: a, Limits: l, Note: note})
+	}
 	// D13: lying headers (the refutation witnesses of the unfixed code)
 	for _, rec := range []bool{false, true} {
 		add("D13 declared 5 B, stored stream 20 B", archiveSpec{Entries: []entrySpec{{Name: "liar.txt", Len: 20, Declared: u64(5)}}}, noLimit(rec, -1))
@@ -374,6 +385,13 @@ func corpus() []scenario {
 		add("declared 2^64-1, empty stream", archiveSpec{Entries: []entrySpec{{Name: "wrap0.txt", Len: 0, Declared: u64(math.MaxUint64)}}}, noLimit(rec, -1))
 		add("zip bomb hidden behind a small declared size", archiveSpec{Entries: []entrySpec{{Name: "bomb.bin", Len: 100000, Method: 8, Declared: u64(10)}}},
 			limitsSpec{MaxFile: 1000, MaxTotal: 1000, MaxCount: 10, MaxDepth: -1, Recursive: rec})
+		for _, decl := range []uint64{1 << 63, math.MaxUint64} {
+			wrapped := archiveSpec{Entries: []entrySpec{file("ok.txt", 4, 0), {Name: "wrapbomb.bin", Len: 100000, Method: 8, Declared: u64(decl)}}}
+			add("100 kB behind a declared size >= 2^63 (negative as int64), per-file limit 1000 B", wrapped,
+				limitsSpec{MaxFile: 1000, MaxTotal: 1 << 50, MaxCount: 10, MaxDepth: -1, Recursive: rec})
+			add("100 kB behind a declared size >= 2^63, inside a nested archive, per-file limit 1000 B",
+				archiveSpec{Entries: []entrySpec{{Name: "d0/in.zip", Nested: &wrapped}}}, limitsSpec{MaxFile: 1000, MaxTotal: 1 << 50, MaxCount: 10, MaxDepth: 5, Recursive: rec})
+		}
 		inner := archiveSpec{Entries: []entrySpec{file("a.txt", 3, 0), {Name: "liar.txt", Len: 30, Method: 8, Declared: u64(7)}}}
 		add("lying header inside a nested archive", archiveSpec{Entries: []entrySpec{{Name: "in.zip", Nested: &inner}}}, noLimit(rec, -1))
 	}
